@@ -32,7 +32,7 @@ def gen_cases(ctx, scale=1.0):
 
 
 def evaluate(ctx, drv, cases):
-    vidx = [i for i, c in enumerate(cases) if c['mode'] == 'verify']
+    vidx = [i for i, c in enumerate(cases) if c03.needs_c02(c)]
     c02 = drv.run([{'op': 'c02.verify', 'L': cases[i]['L'], 'sizes': cases[i]['sizes'], 'disk': cases[i]['disk'],
                     'flips': cases[i]['flips'], 'single': False, 'pathIsDir': True} for i in vidx])
     c02by = dict(zip(vidx, c02))
